@@ -4,8 +4,8 @@ From PM Require Import Base Lemmas Text TextLemmas Model Skeleton Quals Canon De
 Import ListNotations.
 Local Open Scope N_scope.
 
-Section CP. Variable cfg : config.
-Hypothesis R : rt_ok cfg.
+Section CP0. Variable cfg : config.
+Hypothesis Hasc : tbl_ascii_ok cfg = true.
 Hypothesis Hsa : scan_ascii_ok cfg = true.
 Hypothesis Hdl : dash_not_letter cfg = true.
 Hypothesis Hfix : tbl_img_fixed cfg = true.
@@ -14,7 +14,6 @@ Hypothesis Hnc : tbl_no_comma cfg = true.
 Hypothesis Hck : valid_key cfg s_checksum = true.
 Hypothesis Hhy : dash_has_hyphen cfg = true.
 Hypothesis Hnd : tbl_no_dash cfg = true.
-Let Hasc := rt_asc cfg R.
 Let P := ptype_shape cfg.
 
 Lemma pt_roundtrip t : valid_type cfg (pt_name t) = true /\ pt_from_str cfg (pt_name t) = Some t.
@@ -34,13 +33,26 @@ Proof.
     + cbn [p_name with_name]. apply utf8_valid_fix_pypi_any; assumption.
     + intros q. cbn [p_name with_name with_quals p_ns p_ver p_quals p_sub]. rewrite fix_pypi_idem_any by assumption. reflexivity.
 Qed.
+End CP0.
+Section CP. Variable cfg : config.
+Hypothesis R : rt_ok cfg.
+Hypothesis Hsa : scan_ascii_ok cfg = true.
+Hypothesis Hdl : dash_not_letter cfg = true.
+Hypothesis Hfix : tbl_img_fixed cfg = true.
+Hypothesis Hsc : tbl_img_scalar cfg = true.
+Hypothesis Hnc : tbl_no_comma cfg = true.
+Hypothesis Hck : valid_key cfg s_checksum = true.
+Hypothesis Hhy : dash_has_hyphen cfg = true.
+Hypothesis Hnd : tbl_no_dash cfg = true.
+Let Hasc := rt_asc cfg R.
+Let P := ptype_shape cfg.
 Lemma pt_finish_type t0 p0 t1 p1 : sh_finish P t0 p0 = Ok (t1, p1) -> valid_type cfg (sh_type P t1) = true /\ sh_from_str P (sh_type P t1) = Ok t1.
 Proof.
-  intros _. cbn [sh_type sh_from_str P ptype_shape]. destruct (pt_roundtrip t1) as [H1 H2]. rewrite H2. auto.
+  intros _. cbn [sh_type sh_from_str P ptype_shape]. destruct (pt_roundtrip cfg t1) as [H1 H2]. rewrite H2. auto.
 Qed.
 
 (* C01 for the typed PURL *)
 Theorem C01_P s t p : parse cfg P s = Ok (t, p) -> format_panics cfg P t = false /\ parse cfg P (format cfg P t p) = Ok (t, p).
-Proof. apply (C01_gen cfg R Hsa Hfix Hsc Hnc Hck P); [apply pt_finish_stable|apply pt_finish_type]. Qed.
+Proof. apply (C01_gen cfg R Hsa Hfix Hsc Hnc Hck P); [apply pt_finish_stable; assumption|apply pt_finish_type]. Qed.
 End CP.
 Print Assumptions C01_P.
